@@ -33,7 +33,12 @@ def execute(mod, ctx, case):
     res = Res()
     ctx.dir = ctx.sb.case_dir()
     try:
-        mod.run(case, ctx, res)
+        if isinstance(case, dict) and case.get("audit_probe"):
+            from . import audit_probes
+
+            audit_probes.run(case["audit_probe"], ctx, res)
+        else:
+            mod.run(case, ctx, res)
     except Exception as exc:  # harness bug or unexpected library behaviour outside any oracle
         esc = getattr(mod, "ESCAPED_LIBRARY_ERROR", None)
         tb = exc.__traceback__
@@ -137,6 +142,11 @@ def main():
                 case = dict(case)
                 case["probe"] = key
                 handle(case, "probe:" + key)
+        if job["shard"] == 0:
+            from . import audit_probes
+
+            for key in audit_probes.BY_PROPERTY.get(job["prop"], ()):
+                handle({"audit_probe": key, "probe": key}, "probe:" + key)
         if hasattr(mod, "directed") and job["shard"] == 0:
             for case in mod.directed(ctx):
                 handle(case, "directed")
